@@ -31,6 +31,9 @@ pub struct PricePair {
 pub struct OracleView {
     pub spot: PricePair,
     pub ema: PricePair,
+    /// venue-backed banks: bound on |program's exchange-rate-adjusted price - exact adjusted
+    /// price| for (spot price, spot conf, ema price, ema conf); zero for plain banks
+    pub adj_err: Q,
 }
 
 #[derive(Clone, Debug, PartialEq, Eq)]
@@ -71,6 +74,7 @@ pub fn read_oracle(store: &Store, bank: &Bank, clock: SimClock) -> Result<Oracle
             Ok(OracleView {
                 spot: pp.clone(),
                 ema: pp,
+                adj_err: Q::zero(),
             })
         }
         OracleSetup::StakedWithPythPush => {
@@ -126,6 +130,7 @@ pub fn read_oracle(store: &Store, bank: &Bank, clock: SimClock) -> Result<Oracle
                     conf: scale(p.ema_conf as i128, p.exponent) * &cm,
                     conf_raw: scale(p.ema_conf as i128, p.exponent),
                 },
+                adj_err: Q::zero(),
             })
         }
         OracleSetup::PythPushOracle => {
@@ -160,6 +165,7 @@ pub fn read_oracle(store: &Store, bank: &Bank, clock: SimClock) -> Result<Oracle
                     conf: scale(p.ema_conf as i128, p.exponent) * &cm,
                     conf_raw: scale(p.ema_conf as i128, p.exponent),
                 },
+                adj_err: Q::zero(),
             })
         }
         OracleSetup::SwitchboardPull => {
@@ -184,9 +190,195 @@ pub fn read_oracle(store: &Store, bank: &Bank, clock: SimClock) -> Result<Oracle
             Ok(OracleView {
                 spot: pp.clone(),
                 ema: pp,
+                adj_err: Q::zero(),
+            })
+        }
+        OracleSetup::KaminoPythPush | OracleSetup::SolendPythPull | OracleSetup::DriftPythPull => {
+            // venue account first (the program checks it before it loads the feed)
+            let vr = venue_rate(store, bank, clock)?;
+            let key = bank.config.oracle_keys[0];
+            let acc = store.get(&key).ok_or(OracleBad::Missing)?;
+            if acc.owner != pyth_solana_receiver_sdk::id() {
+                return Err(OracleBad::WrongOwner);
+            }
+            let p = parse_pyth(&acc.data).ok_or(OracleBad::BadData)?;
+            if !p.verification_full {
+                return Err(OracleBad::Unverified);
+            }
+            if p.publish_time.saturating_add(max_age_of(bank)) < clock.unix_timestamp {
+                return Err(OracleBad::Stale);
+            }
+            if vr.integer_only && (p.price < 0 || p.ema_price < 0) {
+                // the Drift conversion is unsigned: a negative mantissa is a conversion error
+                return Err(OracleBad::BadData);
+            }
+            let scale = |m: &Q, e: i32| -> Q {
+                if e >= 0 {
+                    m * pow10(e as u32)
+                } else {
+                    m / pow10((-e) as u32)
+                }
+            };
+            let rate = vr.rate.clone().unwrap_or_else(|| qi(1));
+            // program: mantissa' = floor(mantissa * ratio_fx): at most |m| * d_r + 1 mantissa units
+            // below/above the exact product; the result must fit the mantissa's integer type
+            let adj = |m: i128, lim: i128| -> Result<(Q, Q), OracleBad> {
+                let x = qi(m) * &rate;
+                let e = if vr.rate.is_some() { qi(m.abs()) * &vr.d_r + qi(1) } else { Q::zero() };
+                if x.abs() > qi(lim) + &e {
+                    return Err(OracleBad::OutOfRange);
+                }
+                Ok((x, e))
+            };
+            let (sp, e1) = adj(p.price as i128, i64::MAX as i128)?;
+            let (sc, e2) = adj(p.conf as i128, u64::MAX as i128)?;
+            let (ep, e3) = adj(p.ema_price as i128, i64::MAX as i128)?;
+            let (ec, e4) = adj(p.ema_conf as i128, u64::MAX as i128)?;
+            let cm = qr(212, 100);
+            let emax = model::q_max(model::q_max(e1, e3), model::q_max(e2, e4) * &cm);
+            Ok(OracleView {
+                spot: PricePair {
+                    price: scale(&sp, p.exponent),
+                    conf: scale(&sc, p.exponent) * &cm,
+                    conf_raw: scale(&sc, p.exponent),
+                },
+                ema: PricePair {
+                    price: scale(&ep, p.exponent),
+                    conf: scale(&ec, p.exponent) * &cm,
+                    conf_raw: scale(&ec, p.exponent),
+                },
+                adj_err: scale(&emax, p.exponent),
+            })
+        }
+        OracleSetup::KaminoSwitchboardPull | OracleSetup::SolendSwitchboardPull | OracleSetup::DriftSwitchboardPull => {
+            let vr = venue_rate(store, bank, clock)?;
+            let key = bank.config.oracle_keys[0];
+            let acc = store.get(&key).ok_or(OracleBad::Missing)?;
+            if acc.owner != marginfi::constants::SWITCHBOARD_PULL_ID {
+                return Err(OracleBad::WrongOwner);
+            }
+            let s = parse_swb(&acc.data).ok_or(OracleBad::BadData)?;
+            if clock.unix_timestamp.saturating_sub(s.last_update_timestamp) > max_age_of(bank) {
+                return Err(OracleBad::Stale);
+            }
+            if vr.integer_only && (s.value < 0 || s.std_dev < 0) {
+                return Err(OracleBad::BadData);
+            }
+            let lim: i128 = 1i128 << 79;
+            if !vr.integer_only && vr.rate.is_some() && (s.value >= lim || s.value < -lim || s.std_dev >= lim || s.std_dev < -lim) {
+                // the raw 1e18-scaled value must fit the 80-bit integer part before it is scaled
+                return Err(OracleBad::OutOfRange);
+            }
+            let rate = vr.rate.clone().unwrap_or_else(|| qi(1));
+            let v = qi(s.value) * &rate;
+            let sd = qi(s.std_dev) * &rate;
+            let ev = if vr.rate.is_some() { qi(s.value).abs() * &vr.d_r + qi(1) } else { Q::zero() };
+            let es = if vr.rate.is_some() { qi(s.std_dev).abs() * &vr.d_r + qi(1) } else { Q::zero() };
+            // the adjusted value is then converted like any Switchboard value (must fit 80 bits)
+            if v.abs() >= qi(lim) - &ev || sd.abs() >= qi(lim) - &es {
+                return Err(OracleBad::OutOfRange);
+            }
+            let pp = PricePair {
+                price: &v / pow10(18),
+                conf: &sd / pow10(18) * qr(196, 100),
+                conf_raw: &sd / pow10(18),
+            };
+            Ok(OracleView {
+                spot: pp.clone(),
+                ema: pp,
+                adj_err: (model::q_max(ev, es * qr(196, 100))) / pow10(18),
             })
         }
         _ => Err(OracleBad::Unsupported),
+    }
+}
+
+/// Exchange rate of a venue-backed bank: underlying tokens per unit of the venue's collateral
+/// (Kamino / Solend: total liquidity / collateral supply; Drift: cumulative deposit interest /
+/// 10^10), read from the venue account named by `oracle_keys[1]`.
+pub struct VenueRate {
+    /// None: the reserve has no collateral outstanding and the price is used unadjusted
+    pub rate: Option<Q>,
+    /// bound on |the program's fixed-point ratio - rate|
+    pub d_r: Q,
+    /// Drift: the adjustment is unsigned integer arithmetic (floor), no fixed-point ratio
+    pub integer_only: bool,
+}
+
+pub fn venue_rate(store: &Store, bank: &Bank, clock: SimClock) -> Result<VenueRate, OracleBad> {
+    let key = bank.config.oracle_keys[1];
+    let acc = store.get(&key).ok_or(OracleBad::Missing)?;
+    let u = ulp();
+    match bank.config.oracle_setup {
+        OracleSetup::SolendPythPull | OracleSetup::SolendSwitchboardPull => {
+            if acc.owner != crate::rt::solend_id() {
+                return Err(OracleBad::WrongOwner);
+            }
+            let v = crate::venues::parse_solend_reserve(&acc.data).ok_or(OracleBad::BadData)?;
+            if v.slot < clock.slot {
+                return Err(OracleBad::Stale);
+            }
+            let l = qu(v.available) + model::qu128(v.borrowed_wads) / pow10(18) - model::qu128(v.fees_wads) / pow10(18);
+            ratio(l, v.collateral_supply, v.decimals, 3, &u)
+        }
+        OracleSetup::KaminoPythPush | OracleSetup::KaminoSwitchboardPull => {
+            if acc.owner != crate::rt::kamino_id() {
+                return Err(OracleBad::WrongOwner);
+            }
+            let v = crate::venues::parse_kamino_reserve(&acc.data).ok_or(OracleBad::BadData)?;
+            if v.slot < clock.slot {
+                return Err(OracleBad::Stale);
+            }
+            let sf = Q::from_integer(num_bigint::BigInt::from(1u8) << 60);
+            let l = qu(v.available) + model::qu128(v.borrowed_sf) / &sf - model::qu128(v.fees_sf) / &sf;
+            ratio(l, v.collateral_supply, v.decimals, 6, &u)
+        }
+        OracleSetup::DriftPythPull | OracleSetup::DriftSwitchboardPull => {
+            if acc.owner != crate::rt::drift_id() {
+                return Err(OracleBad::WrongOwner);
+            }
+            let v = crate::venues::parse_drift_market(&acc.data).ok_or(OracleBad::BadData)?;
+            if (v.last_interest_ts as i64) < clock.unix_timestamp {
+                return Err(OracleBad::Stale);
+            }
+            Ok(VenueRate {
+                rate: Some(model::qu128(v.cumulative_deposit_interest) / pow10(10)),
+                d_r: Q::zero(),
+                integer_only: true,
+            })
+        }
+        _ => Err(OracleBad::Unsupported),
+    }
+}
+
+/// total liquidity `l` (native units, exact) over `c` collateral units, both first scaled by
+/// 10^-decimals and truncated to 48 fractional bits as the program does; `k` = number of ulps
+/// the program's total may be off before scaling.
+fn ratio(l: Q, c: u64, decimals: u8, k: i128, u: &Q) -> Result<VenueRate, OracleBad> {
+    if decimals > 23 {
+        return Err(OracleBad::BadData);
+    }
+    if l < qi(0) {
+        return Err(OracleBad::BadData);
+    }
+    let cs = qu(c) / pow10(decimals as u32);
+    if cs < *u {
+        // nothing outstanding (or less than one ulp after scaling): used unadjusted
+        return Ok(VenueRate { rate: None, d_r: Q::zero(), integer_only: false });
+    }
+    let r = &l / qu(c);
+    let denom = &cs - u;
+    let d_r = if denom <= Q::zero() { r.clone() + qi(1) } else { u.clone() + (u * qi(k) + &r * u) / denom };
+    Ok(VenueRate { rate: Some(r), d_r, integer_only: false })
+}
+
+/// Decimals in which a bank's share amounts are denominated (Drift positions are kept in
+/// Drift's 9-decimal scaled balance whatever the mint's decimals).
+pub fn balance_decimals(bank: &Bank) -> u8 {
+    if bank.config.asset_tag == marginfi_type_crate::constants::ASSET_TAG_DRIFT {
+        9
+    } else {
+        bank.mint_decimals
     }
 }
 
@@ -212,7 +404,7 @@ pub fn biased(view: &OracleView, bank: &Bank, ema: bool) -> Result<(Q, Q, Q), Pr
     // The program compares two truncated fixed-point quantities; within the truncation band
     // around the exact threshold either verdict is legitimate, so Ref only calls a price
     // "too wide" when it is so beyond that band (no claim inside it).
-    let band = (pp.conf_raw.abs() + pp.price.abs() + qi(4)) * ulp() * qi(4);
+    let band = (pp.conf_raw.abs() + pp.price.abs() + qi(4)) * ulp() * qi(4) + &view.adj_err * (qi(1) + max_conf_fraction(bank));
     if pp.conf > &max_conf + &band {
         return Err(PriceErr::ConfidenceTooWide);
     }
@@ -240,7 +432,7 @@ pub fn biased_price_err(view: &OracleView, ema: bool) -> Q {
     } else {
         model::q_max(d_conf, d_cap)
     };
-    d_bias + &u * qi(2)
+    d_bias + &u * qi(2) + &view.adj_err * qi(2)
 }
 
 #[derive(Clone, Debug)]
@@ -342,7 +534,7 @@ pub fn health(store: &Store, acc: &MarginfiAccount, req: Req, clock: SimClock) -
         let bank = model::bank_of(store, &b.bank_pk).ok_or(HealthErr::BankMissing(b.bank_pk))?;
         let sa = q_w(b.asset_shares);
         let sl = q_w(b.liability_shares);
-        let dec = pow10(bank.mint_decimals as u32);
+        let dec = pow10(balance_decimals(&bank) as u32);
         let ema = matches!(req, Req::Init | Req::Equity);
         if sl >= qi(1) {
             h.n_liabs += 1;
